@@ -35,11 +35,23 @@ func DecodeSemi(encoded []byte) (chunks []int) {
 }
 
 func EncodeSemiAddress(w io.Writer, input string) (n int64, err error) {
-	parsed, err := strconv.ParseUint(input, 10, 64)
-	if err != nil {
-		return
+	digits := make([]byte, 0, len(input))
+	for _, r := range input {
+		if r < '0' || r > '9' {
+			err = strconv.ErrSyntax
+			return
+		}
+		digits = append(digits, byte(r-'0'))
 	}
-	return EncodeSemi(w, int(parsed))
+	var buf bytes.Buffer
+	buf.Grow((len(digits) + 1) / 2)
+	for i := 0; i+1 < len(digits); i += 2 {
+		buf.WriteByte(digits[i+1]<<4 | digits[i])
+	}
+	if len(digits)%2 != 0 {
+		buf.WriteByte(0b11110000 | digits[len(digits)-1])
+	}
+	return buf.WriteTo(w)
 }
 
 func DecodeSemiAddress(encoded []byte) (output string) {
